@@ -17,6 +17,9 @@ COMMON = dict(
                (r'\bdelete n\.get\(\);', 'XV_DELETE_NODE(n);', 'delete_node')],
     subst=[(r'\btraits::', 'TR_', 'traits'), (r'\bstd::ignore\s*=', '(void)', 'ignore'), (r'\bstd::nullopt\b', 'XV_NULLOPT', 'nullopt')],
     deref={'t': 'GDEREF', 'h': 'GDEREF', 'new_node': 'GDEREF', 'n': 'GDEREF'},
+    # nodes are kept as one small array per member (cheap for cbmc): node->member becomes N_member(node)
+    post_subst=[(r'GDEREF\((\w+)\)->entries\[([^\]]+)\]\.value', r'N_entry(\1, \2)', 'node_entry'),
+                (r'GDEREF\((\w+)\)->(\w+)', r'N_\2(\1)', 'node_member')],
 )
 PUSH = dict(COMMON, file=F, sig=r'void ' + Q + r'push\(value_type value\)', may_throw=['XV_NEW_NODE'],
             must_fire={'A_LOAD': 3, 'A_FADD': 1, 'A_CAS': 4, 'A_STORE': 1, 'method:acquire': 1, 'subst:new_node': 1, 'subst:delete_node': 1,
@@ -25,7 +28,9 @@ POP = dict(COMMON, file=F, sig=r'auto ' + Q + r'pop\(\) -> std::optional<value_t
            must_fire={'A_LOAD': 7, 'A_FADD': 1, 'A_CAS': 1, 'A_XCHG': 1, 'method:acquire': 1, 'method:reclaim': 1, 'subst:traits': 2,
                       'subst:nullopt': 1, 'call:marked_value': 1})
 NODE = dict(file=F, members=['pop_idx', 'push_idx', 'entries', 'next'], methods={'get': 'MV_get'},
-            subst=[(r'\btraits::', 'TR_', 'traits'), (r'\bstd::min\b', 'XV_MIN', 'min')])
+            subst=[(r'\btraits::', 'TR_', 'traits'), (r'\bstd::min\b', 'XV_MIN', 'min')],
+            post_subst=[(r'self->entries\[([^\]]+)\]\.value', r'N_entry(self, \1)', 'node_entry'),
+                        (r'self->(\w+)', r'N_\1(self)', 'node_member')])
 
 E_QUICK = list(range(1, 17)) + [22, 33, 64, 128, 512, 1024, 2048]
 def idx_runs():
@@ -69,12 +74,12 @@ RUNS = (
           note='pop_idx, push_idx any multiples of step_size below 2^27*step_size; ~node must finish within entries_per_node iterations')
   + per_e('ctor', 'h_ctor', [1, 4], lambda e: ['ram_node_ctor.0:%d' % (e + 1)], cls='shape-complete')
   + per_e('dtor', 'h_dtor', [1, 4], lambda e: ['ram_dtor.0:5'], cls='shape-complete', note='list of 1..3 nodes plus unlisted nodes')
-  + per_e('push', 'h_push', ES, lambda e: ['ram_push.0:%d' % (e + 4), 'ram_node_ctor.0:%d' % (e + 1), 'ram_node_dtor.0:%d' % (e + 2)], cls='shape-complete')
+  + per_e('push', 'h_push', ES, lambda e: ['ram_push.0:%d' % (e + 4), 'ram_push.1:%d' % (e + 4), 'ram_node_ctor.0:%d' % (e + 1), 'ram_node_dtor.0:%d' % (e + 2)], cls='shape-complete')
   + per_er('pop', 'h_pop', ER, lambda e, r: ['ram_pop.0:%d' % (3 * e + 5), 'ram_pop.1:%d' % (r + 2)], ER, cls='shape-complete')
   + per_e('try_pop', 'h_try_pop', [4], lambda e: [], es=[4], cls='unbounded')
   + per_e('push_int', 'h_push_int', ES, lambda e: ['ram_node_ctor.0:%d' % (e + 1), 'ram_node_dtor.0:%d' % (e + 2)], mode='INT', cls='shape-complete')
-  + per_er('pop_int', 'h_pop_int', ER, lambda e, r: ['ram_pop_cut.0:%d' % (r + 2)], ER, mode='INT', cls='shape-complete')
-  + per_e('push_rollback', 'h_push_rollback', ES, lambda e: ['ram_push.0:%d' % (2 * e + 5), 'ram_node_ctor.0:%d' % (e + 1), 'ram_node_dtor.0:%d' % (e + 2)], mode='INT', cls='shape-complete')
+  + per_er('pop_int', 'h_pop_int', ER, lambda e, r: ['ram_pop_cut.%d:%d' % (i, r + 2) for i in range(3)], ER, mode='INT', cls='shape-complete')
+  + per_e('push_rollback', 'h_push_rollback', ES, lambda e: ['ram_push.0:%d' % (2 * e + 5), 'ram_push.1:%d' % (2 * e + 5), 'ram_node_ctor.0:%d' % (e + 1), 'ram_node_dtor.0:%d' % (e + 2)], mode='INT', cls='shape-complete')
 )
 
 UNIT = dict(
@@ -100,10 +105,10 @@ UNIT = dict(
   ],
   sources=[
     dict(NODE, id='node_ctor', sig=r'explicit node\(raw_value_type item\)', ctor=True,
-         c_sig='static void ram_node_ctor(struct node* self, raw_value_type item)',
+         c_sig='static void ram_node_ctor(marked_ptr self, raw_value_type item)',
          must_fire={'A_STORE': 2, 'ctor_init': 3}),
     dict(NODE, id='node_dtor', sig=r'~node\(\) override',
-         c_sig='static void ram_node_dtor(struct node* self)',
+         c_sig='static void ram_node_dtor(marked_ptr self)',
          must_fire={'subst:traits': 1, 'method:get': 1}),
     dict(COMMON, id='ctor', file=F, sig=Q + r'ramalhete_queue\(\)',
          c_sig='static void ram_ctor(struct ramq* self)', must_fire={'subst:new_node': 1, 'A_STORE': 3}),
